@@ -14,7 +14,7 @@ import subprocess
 import sys
 import time
 
-VERIF = '/verif'
+VERIF = os.path.dirname(os.path.dirname(os.path.abspath(__file__)))   # /verif, or a snapshot of it (vp run)
 REPO = os.environ.get('VERIF_REPO', '/repo')   # overridable for evaluating seeded changes in a scratch worktree
 SPEC = os.path.join(VERIF, 'spec')
 HARNESS = os.path.join(VERIF, 'harness')
@@ -200,6 +200,7 @@ class Run:
 
     # ------------------------------------------------------------------ trace validation
     def validate(self, module, cfg_text, traces, label, parallel=8, timeout=1800, constants=''):
+        records = module.startswith('Rec_')     # record files: the state with position l judges line l itself
         """Run TLC trace validation (conformance + monitors) over each trace file."""
         t = time.time()
 
@@ -222,6 +223,8 @@ class Run:
             done = re.search(r'"TRACE-DONE", (\d+), "DRIFT", <<(.*?)>>', out)
             if viol:
                 line = last_l(out)
+                if records and line is not None:
+                    line += 1
                 self.report_violation(viol, tr, line, out)
                 continue
             if not done:
@@ -357,13 +360,17 @@ def read_line(path, k):
 def trace_of_line(path, k):
     """all lines of the trace (from its Init/Begin event) up to and including line k"""
     lines = []
+    framed = False
     with open(path) as f:
         for i, ln in enumerate(f, 1):
             if '"ev":"Init"' in ln or '"ev":"Begin"' in ln:
                 lines = []
+                framed = True
             lines.append(ln)
             if i >= k:
                 break
+    if not framed:          # independent records: the offending record (and its predecessor, e.g. Cfg/CfgEnd pairs)
+        lines = lines[-2:]
     return lines
 
 
@@ -395,7 +402,7 @@ def parse_violation(out):
 
 def last_l(out):
     """value of the trace position variable l in the last printed state (= offending line + 1)"""
-    ls = re.findall(r'^/\\ l = (\d+)', out, re.M)
+    ls = re.findall(r'^(?:/\\ )?l = (\d+)', out, re.M)
     if not ls:
         return None
     # the violating step is the one that consumed line l-1
